@@ -620,10 +620,12 @@ impl<'a> Ri<'a> {
             self.facts.x_expansions += 1;
         }
         let mut expansion_index = 0usize;
-        for a in 0..(1u64 << xs.len()) {
+        // (with 64 and more don't-cares the row cap ends the enumeration long before the count
+        // could matter)
+        for a in 0..(if xs.len() >= 64 { u64::MAX } else { 1u64 << xs.len() }) {
             let mut base = evs.clone();
             for (j, col) in xs.iter().enumerate() {
-                base[*col] = Ev::Num(((a >> j) & 1) as i64);
+                base[*col] = Ev::Num(if j >= 64 { 0 } else { ((a >> j) & 1) as i64 });
             }
             let phases: &[(i64, bool)] =
                 if cs.is_empty() { &[(0, true)] } else { &[(0, false), (1, false), (0, true)] };
